@@ -140,6 +140,20 @@ def execute(stmts, layouts):
                     pan = panic_site((o.get("panics") or ref.get("panics"))[0]) if (o.get("panics") or ref.get("panics")) else ""
                     if not pan:
                         pan = err_class(o.get("err") or ref.get("err") or "")
+                    if pan.endswith("column-not-found-from-input"):
+                        # where the plan of the failing engine refers to a column its input does not produce: below a subquery
+                        # form the optimizer left in the plan (the open C17 finding, whose consequence this panic then is) or
+                        # somewhere else (located by the harness's plan walker, as C01 / C17 do)
+                        try:
+                            from c17 import unresolved_class
+                            failing = [db for (nm, db) in dbs if nm == (name if not o["ok"] else ref_name)][0]
+                            pc = failing.cmd({"op": "plancheck", "sql": sql}, timeout=60)
+                            if any(i.startswith(("contains-in-subquery", "contains-exists", "contains-apply")) for i in pc.get("issues", [])):
+                                pan += "@below-unresolved-subquery-form"
+                            else:
+                                pan += "@" + unresolved_class(pc.get("unresolved") or [])
+                        except Exception:
+                            pan += "@unlocated"
                     res["violations"].append(dict(
                         signature=f"outcome-class-differs:{pan.replace('/repo/', '')}",
                         what=f"{sql[:300]}: mem={outcome(ref)} {ref.get('err', '')[:80]} vs {name}={outcome(o)} {o.get('err', '')[:80]}", sql=sql))
